@@ -13,8 +13,7 @@ EXPLANATION = (
     "groups. union / intersection / subtraction / difference are evaluated on all 0/1 combinations of 1..3 symbolic masks "
     "(exhaustive truth tables) and for soft inputs must stay in [0,1]; every in-place fold must act on a fresh array "
     "(cryomap.read returns a copy on every path), so inputs are never modified.")
-ASSUMPTIONS = TRUSTED + ["ellipsoid grid construction (flattened/reversed point lists) is not modelled; soft-edge tolerances are "
-                         "scikit-image's"]
+ASSUMPTIONS = TRUSTED + ["soft-edge tolerances are scikit-image's; rotated ellipsoids (angles) are not decided"]
 
 CM = "cryomask."
 SIZE = Arr([sym("n0"), sym("n1"), sym("n2")], 1)
@@ -320,8 +319,53 @@ def o134(ctx):
                     ctx.finding(q, e.node, f"{name} folds in place into an array that may alias an input mask (not a fresh copy)", e.node, m)
 
 
+def o135(ctx):
+    """ellipsoid: sum_k ((i_k - c_k) / r_k)^2 <= 1 for even box sizes (the documented domain), anisotropic radii, non-cubic boxes"""
+    rng = np.random.default_rng(tm.SEED + 135)
+    q = CM + "ellipsoid_mask"
+    m, fn = ctx.prog.func(q)
+    ctx.touched(q)
+    radii = Arr([sym("r0"), sym("r1"), sym("r2")], 1)
+    it, v = run_mask(ctx, "ellipsoid_mask", {"mask_size": SIZE, "radii": radii, "center": CEN, "gaussian": K(0)})
+    ax = v.axes
+    t = None
+    for A, c, r in zip(ax, CEN.cols, radii.cols):
+        d = mk("div", mk("sub", A.sym, c), r)
+        t = mk("mul", d, d) if t is None else mk("add", t, mk("mul", d, d))
+    want = mk("ite", mk("le", t, const(1.0)), const(1.0), const(0.0))
+    got = mk("ite", v.term, const(1.0), const(0.0)) if v.term.op in ("le", "lt") else v.term
+    envs = []
+    for i in range(120 * tm.N_MULT):
+        env = {"__salt__": float(rng.uniform(0, 1))}
+        for k, A in enumerate(ax):
+            n = float(2 * rng.integers(3, 25))  # even sizes
+            for nm in tm.symbols(A.n):
+                env[nm] = n
+            env[f"c{k}"] = float(rng.integers(0, int(n)))
+            env[f"r{k}"] = float(rng.integers(1, 30))
+            env[A.sym.args[0]] = float(rng.integers(0, int(n)))
+        if i % 3 == 0:
+            # a voxel on one axis exactly on the surface: |i_k - c_k| == r_k, the others at the centre (anisotropy made visible)
+            k = i % 3 if i % 2 else (i // 3) % 3
+            for j, A in enumerate(ax):
+                env[A.sym.args[0]] = env[f"c{j}"]
+            env[ax[k].sym.args[0]] = env[f"c{k}"] + env[f"r{k}"] * (1 if i % 2 else -1)
+        if i % 3 == 1:
+            k = (i // 3) % 3
+            for j, A in enumerate(ax):
+                env[A.sym.args[0]] = env[f"c{j}"]
+            env[ax[k].sym.args[0]] = env[f"c{k}"] + env[f"r{k}"] + 1  # one voxel beyond the semi-axis k
+        envs.append(env)
+    res = tm.equivalent(got, want, n=len(envs), extra_envs=envs, tol=1e-9, seed_tag=q, need=len(envs) // 2)
+    ctx.count(len(envs), {"shape": "ellipsoid", "lattice points": len(envs), "equal": bool(res), "extracted": tm.show(v.term)[:200]})
+    if not res:
+        ctx.finding(q, "ellipsoid: sum(((i_k - c_k)/r_k)^2) <= 1", "ellipsoid: the mask value of a voxel differs from the analytic inequality "
+                    "(each semi-axis r_k must act along its own array axis k, around centre c_k)", fn, m, witness=res.witness)
+
+
 def _obligations():
     return [
+        Obligation("O13.5", "ellipsoid voxels satisfy sum(((i_k - c_k)/r_k)^2) <= 1 (even sizes, anisotropic radii, per-axis pairing)", o135, floor=100),
         Obligation("O13.1", "sphere / cylinder voxels satisfy the analytic inequalities (<=, floor(h/2)); outward blur grows the solid", o131, floor=300),
         Obligation("O13.2", "shells are outer minus inner solid with radii r +- t/2", o132, floor=90),
         Obligation("O13.3", "generate_mask passes each pattern group to the parameter the pattern names", o133, floor=12),
